@@ -244,17 +244,22 @@ class Check(object):
         for key, (f, n) in sorted(self.known_hits.items()):
             print("KNOWN-FINDING: property=%s %s [%d occurrences this run; key=%s]" %
                   (self.prop, f["what"], n, f["key"]))
-        shown = 0
-        for n, (key, what, replay) in enumerate(self.violations):
-            if shown >= 5:
+        # one VIOLATION line per distinct key (first occurrence is the replay file), with its count
+        bykey = {}
+        for key, what, replay in self.violations:
+            bykey.setdefault(key, []).append((what, replay))
+        for n, key in enumerate(sorted(bykey)):
+            if n >= 12:
+                print("  ... and %d more distinct violation keys" % (len(bykey) - n))
                 break
+            what, replay = bykey[key][0]
             path = os.path.join(outdir, "%s-%d.json" % (self.tier, n))
             with open(path, "w") as fh:
-                json.dump({"property": self.prop, "key": key, "what": what, "replay": replay,
+                json.dump({"property": self.prop, "key": key, "what": what, "replay": replay, "occurrences": len(bykey[key]),
                            "tier": self.tier, "seed": self.seed}, fh, indent=1, sort_keys=True)
             print("VIOLATION property=%s replay=%s" % (self.prop, path))
-            print("  detail: %s :: %s" % (key, what[:300]))
-            shown += 1
+            print("  detail: [%d x] %s :: %s" % (len(bykey[key]), key, what[:300]))
+        self.extra["violation_keys"] = dict((k, len(v)) for k, v in sorted(bykey.items())[:50])
         cov = {
             "states": max(self.states, 0),
             "transitions": max(self.transitions, 0),
